@@ -319,6 +319,34 @@ class _SegDom(Domain):
         elif isinstance(v, ast.Call) and call_name(v) == 'self.update_traf_if_required' \
                 and name in ('moof_modified', 'traf_modified'):
             s.add('piff-maybe')
+        elif self._positive(v, before) is True:
+            s.add(f'{name}=T')
+        # a counter: starts at a constant >= 0, goes up by positive constants
+        s -= {f'n0:{name}', f'n1:{name}'}
+        if isinstance(v, ast.Constant) and isinstance(v.value, int) and not isinstance(v.value, bool) and v.value >= 0:
+            s.add(f'n0:{name}')
+            if v.value >= 1:
+                s.add(f'n1:{name}')
+
+    @staticmethod
+    def _positive(test: ast.AST, facts: set):
+        """`count > 0` / `count >= 1` / `count != 0` / `0 < count` for a counter known to be >= 1: True"""
+        if isinstance(test, ast.Compare) and len(test.ops) == 1:
+            l, r, op = test.left, test.comparators[0], test.ops[0]
+            if isinstance(l, ast.Constant) and isinstance(r, ast.Name):
+                l, r = r, l
+                op = {ast.Lt: ast.Gt(), ast.LtE: ast.GtE(), ast.Gt: ast.Lt(), ast.GtE: ast.LtE()}.get(type(op), op)
+            if isinstance(l, ast.Name) and isinstance(r, ast.Constant) and isinstance(r.value, int) \
+                    and not isinstance(r.value, bool) and f'n1:{l.id}' in facts:
+                if (isinstance(op, ast.Gt) and r.value <= 0) or (isinstance(op, ast.GtE) and r.value <= 1) \
+                        or (isinstance(op, ast.NotEq) and r.value <= 0):
+                    return True
+                if (isinstance(op, ast.Eq) and r.value <= 0) or (isinstance(op, ast.Lt) and r.value <= 1) \
+                        or (isinstance(op, ast.LtE) and r.value <= 0):
+                    return False
+        if isinstance(test, ast.Name) and f'n1:{test.id}' in facts:
+            return True
+        return None
 
     def transfer(self, st, s):
         s = set(s)
@@ -329,6 +357,19 @@ class _SegDom(Domain):
             tgt, val = st.targets[0], st.value
         elif isinstance(st, ast.AnnAssign) and st.value is not None:
             tgt, val = st.target, st.value
+        if isinstance(st, ast.AugAssign) and isinstance(st.target, ast.Name):
+            nm = st.target.id
+            up = isinstance(st.op, ast.Add) and isinstance(st.value, ast.Constant) and isinstance(st.value.value, int) \
+                and not isinstance(st.value.value, bool) and st.value.value >= 1 and f'n0:{nm}' in before
+            s -= {f'{nm}=T', f'{nm}=F', f'n1:{nm}'}
+            if up:
+                s.add(f'n1:{nm}')
+            else:
+                s.discard(f'n0:{nm}')
+        if isinstance(st, ast.For):
+            for x in ast.walk(st.target):
+                if isinstance(x, ast.Name):
+                    s -= {f'n0:{x.id}', f'n1:{x.id}', f'{x.id}=T', f'{x.id}=F'}
         if isinstance(tgt, ast.Name):
             self._set(s, tgt.id, val, before)
         elif isinstance(tgt, ast.Tuple) and isinstance(val, ast.Tuple) and len(tgt.elts) == len(val.elts):
@@ -368,6 +409,9 @@ class _SegDom(Domain):
                 return None
             if not truth and f'{name}=T' in s:
                 return None
+        known = self._positive(test, set(s))
+        if known is not None and known != truth:
+            return None
         if t == 'tfhd is not None' and not truth:
             s = set(s) | {'base-reset'}
         if t == 'saio is not None and senc is not None' and not truth:
